@@ -50,7 +50,11 @@ func cmdSelftest(id string, verbose bool) int {
 		gOverlay = map[string][]byte{path: []byte(strings.Replace(string(src), m.Old, m.New, 1))}
 		gSelftest = true
 		gLastResult = nil
-		cmdCheck(id, "quick", false, false)
+		tier := os.Getenv("VERIF_TIER")
+		if tier == "" {
+			tier = "quick"
+		}
+		cmdCheck(id, tier, false, false)
 		gOverlay, gSelftest = nil, false
 		cr := gLastResult
 		var failedNames []string
@@ -71,6 +75,11 @@ func cmdSelftest(id string, verbose bool) int {
 		known := map[string]bool{}
 		for _, kf := range loadKnownFindings() {
 			known[kf.obligation] = true
+		}
+		if sp, err := loadSpec(id); err == nil {
+			for _, u := range sp.Unclaimed {
+				known[u] = true
+			}
 		}
 		var unexpected []string
 		for _, n := range failedNames {
